@@ -89,7 +89,9 @@ def match_known(known, prop, unit=None, label=None, cls=None):
 
 
 def safe(name):
-    return ''.join(c if c.isalnum() or c in '._-' else '_' for c in name)[:150]
+    s = ''.join(c if c.isalnum() or c in '._-' else '_' for c in name)
+    # long obligation texts are cut in the middle: the tail carries the path number that tells two failing paths of one obligation apart
+    return s if len(s) <= 150 else s[:120] + '..' + s[-28:]
 
 
 def main(argv=None):
